@@ -207,6 +207,21 @@ def check_probe(mc, d, m, mods):
             if set(si2[xy].working_links) != wl:
                 return "working_links", "probing the unchanged machine again after an earlier description was edited reports links %r for chip %r; the machine has %r" % (
                     sorted(int(l) for l in si2[xy].working_links), xy, sorted(int(l) for l in wl))
+        # a description from which the user takes a chip out (dict.pop) and puts it back (dict.update): every machine model built
+        # from it contains exactly the chips the description holds at that moment
+        if len(live) >= 2:
+            m0 = build_machine(si2)
+            list(si2.dead_chips())
+            gone_chip = sorted(live)[-1]
+            info = si2.pop(gone_chip)
+            m1 = build_machine(si2)
+            if gone_chip in m1 or gone_chip not in set(si2.dead_chips()):
+                return "model_chips", "chip %r was removed from the description with pop(); the machine model built afterwards still contains it (dead_chips() lists it: %r)" % (
+                    gone_chip, gone_chip in set(si2.dead_chips()))
+            si2.update({gone_chip: info})
+            m2 = build_machine(si2)
+            if gone_chip not in m2 or gone_chip in set(si2.dead_chips()) or (gone_chip in m0) != (gone_chip in m2):
+                return "model_chips", "chip %r was put back into the description with update(); the machine model built afterwards does not contain it" % (gone_chip,)
     return None
 
 
